@@ -68,41 +68,41 @@ func structCheck(typ zed.Type, body []byte, depth int) string {
 	case *zed.TypeRecord:
 		es, nulls, why := elems(body)
 		if why != "" {
-			return "record: " + why
+			return "container-encoding: record: " + why
 		}
 		if len(es) != len(t.Fields) {
-			return fmt.Sprintf("record with %d fields has %d elements", len(t.Fields), len(es))
+			return fmt.Sprintf("record-arity: record with %d fields has %d elements", len(t.Fields), len(es))
 		}
 		for i, f := range t.Fields {
 			if nulls[i] {
 				continue
 			}
 			if why := structCheck(f.Type, es[i], depth+1); why != "" {
-				return "field " + f.Name + ": " + why
+				return why + " (in field " + f.Name + ")"
 			}
 		}
 	case *zed.TypeArray:
 		es, nulls, why := elems(body)
 		if why != "" {
-			return "array: " + why
+			return "container-encoding: array: " + why
 		}
 		for i := range es {
 			if nulls[i] {
 				continue
 			}
 			if why := structCheck(t.Type, es[i], depth+1); why != "" {
-				return "array element: " + why
+				return why
 			}
 		}
 	case *zed.TypeSet:
 		es, nulls, why := elems(body)
 		if why != "" {
-			return "set: " + why
+			return "container-encoding: set: " + why
 		}
 		for i := range es {
 			if !nulls[i] {
 				if why := structCheck(t.Type, es[i], depth+1); why != "" {
-					return "set element: " + why
+					return why
 				}
 			}
 		}
@@ -117,7 +117,7 @@ func structCheck(typ zed.Type, body []byte, depth int) string {
 			}
 			cur := rest[:l]
 			if k > 0 && bytes.Compare(prev, cur) >= 0 {
-				return "set elements not in normal form"
+				return "set-normal-form: set elements not in normal form"
 			}
 			prev = cur
 			rest = rest[l:]
@@ -125,10 +125,10 @@ func structCheck(typ zed.Type, body []byte, depth int) string {
 	case *zed.TypeMap:
 		es, nulls, why := elems(body)
 		if why != "" {
-			return "map: " + why
+			return "container-encoding: map: " + why
 		}
 		if len(es)%2 != 0 {
-			return fmt.Sprintf("map with %d elements (odd)", len(es))
+			return fmt.Sprintf("map-parity: map with %d elements (odd)", len(es))
 		}
 		for i := range es {
 			if nulls[i] {
@@ -139,23 +139,23 @@ func structCheck(typ zed.Type, body []byte, depth int) string {
 				et = t.ValType
 			}
 			if why := structCheck(et, es[i], depth+1); why != "" {
-				return "map element: " + why
+				return why
 			}
 		}
 	case *zed.TypeUnion:
 		es, nulls, why := elems(body)
 		if why != "" {
-			return "union: " + why
+			return "container-encoding: union: " + why
 		}
 		if len(es) != 2 {
-			return fmt.Sprintf("union value with %d elements", len(es))
+			return fmt.Sprintf("union-arity: union value with %d elements", len(es))
 		}
 		if nulls[0] {
-			return "union selector is null"
+			return "union-selector: union selector is null"
 		}
 		u, ok := countedUint(es[0])
 		if !ok || u&1 != 0 || int(u>>1) >= len(t.Types) {
-			return "union selector out of range"
+			return "union-selector: union selector out of range"
 		}
 		if nulls[1] {
 			return ""
@@ -164,7 +164,7 @@ func structCheck(typ zed.Type, body []byte, depth int) string {
 	case *zed.TypeEnum:
 		u, ok := countedUint(body)
 		if !ok || u >= uint64(len(t.Symbols)) {
-			return "enum selector out of range"
+			return "enum-selector: enum selector out of range"
 		}
 	}
 	return ""
